@@ -14,8 +14,24 @@ U = [0, 1, 2, 3, 253, 254, 255]
 class Monitor:
     def __init__(self, cfg: dict) -> None:
         self.version = cfg["version"]  # None = unknown
-        self.s = Session(self.version)
         self.pv = self.version or "1.4"
+        restore = cfg.get("restore", [])
+        self.cfg_restore = restore
+        if restore:
+            # part of the registry comes from a persistence file, loaded by the real Persistence.load
+            from aiomysensors.gateway import Config
+            from aiomysensors.model.node import Node
+
+            from .. import fsshim, pers
+
+            kind, val, vfs = pers.save_nodes({n: Node(n, 17, self.pv) for n in restore})
+            assert kind == "ok", val
+            self.s = Session(self.version, Config(persistence_file=pers.PATH))
+            kind, val = pers.run(self.s.gateway.persistence.load, vfs)
+            assert kind == "ok", val
+            assert sorted(self.s.gateway.nodes) == sorted(restore)
+        else:
+            self.s = Session(self.version)
         for n in cfg["registry"]:
             if n == 0 and self.version is None:
                 raise ValueError("node 0 presentation would set the version")
@@ -40,7 +56,7 @@ class Monitor:
         viols = []
 
         def bad(k, what):
-            viols.append((f"C11|{k}", f"[version {self.version}] registry {sorted(before)[:6]}..(n={len(before)}) {ev}: {what}", None))
+            viols.append((f"C11|{k}", f"[version {self.version}] registry {sorted(before)[:6]}..(n={len(before)}, restored from file: {self.cfg_restore}) {ev}: {what}", None))
 
         before = set(gw.nodes)
         before_canon = canon_nodes(gw.nodes)
@@ -130,6 +146,11 @@ def run(ctx: core.Ctx) -> core.Report:
             if v is None and 0 in reg:
                 continue
             cfgs.append({"version": v, "registry": reg, "present": [2, 254, 100] if not ctx.quick else [2, 254]})
+    for v in versions:
+        for reg, rest in (([], [1]), ([], [1, 2, 3]), ([2], [5]), ([7], [1, 200]), ([], [254]), ([1], [253]), ([], list(range(1, 254))), ([3], [0, 9])):
+            if v is None and 0 in reg + rest:
+                continue
+            cfgs.append({"version": v, "registry": reg, "restore": rest, "present": [2, 254]})
     res = bfs.search_many(ctx, MOD, cfgs, depth)
     cov = {
         "states": res["states"],
